@@ -60,4 +60,8 @@ theorem zipWith_map_map {α β γ δ ε : Type} (op : γ → δ → ε) (f : α 
   | _ :: _, [] => by simp
   | a :: l, b :: l' => by simp [zipWith_map_map op f g l l']
 
+theorem zip_self {α : Type} : ∀ l : List α, List.zip l l = l.map fun r => (r, r)
+  | [] => rfl
+  | a :: l => by simp [zip_self l]
+
 end Mir.PyTR
